@@ -454,8 +454,8 @@ func processBatch(d *lib.Driver, cases []kase) error {
 	for i, k := range cases {
 		vs[i] = verdicts{cur: ans[4*i], ideal: ans[4*i+1], simp: ans[4*i+2], spec: ans[4*i+3]}
 		for _, a := range []string{vs[i].cur, vs[i].ideal, vs[i].simp} {
-			if a == "bad-op" || hasStop(a, "fuel") {
-				rep.Add(lib.Finding{Kind: "disagreement", Class: "driver:" + a, What: "the driver could not read or finish the case",
+			if a == "bad-op" || hasStop(a, "fuel") || hasStop(a, "layout") {
+				rep.Add(lib.Finding{Kind: "disagreement", Class: "driver:" + a, What: "the driver could not read or finish the case (fuel), or the heap it built does not have the layout the general theorems assume (layout)",
 					Replay: replayOf(k)})
 			}
 		}
